@@ -12,7 +12,7 @@ from typing import Dict, List, Optional, Set, Tuple
 
 from ..interp import Domain, Frame, Interp, VPath, WriteEvent
 from ..model import AnalysisError, ClassInfo, FuncInfo, Model
-from .common import Membership, canon_key, is_saved_copy_restore, site_of, stmt_of, target_subscript_key, text_of
+from .common import purge_loop_facts, Membership, canon_key, is_saved_copy_restore, site_of, stmt_of, target_subscript_key, text_of
 
 
 def discover_caches(model: Model, cls: ClassInfo, cache_cls: str = "DictCache") -> List[str]:
@@ -214,6 +214,9 @@ class CacheDomain(Domain):
             return self._read(st, ci, node, fr)
         return [st]
 
+    def on_loop_edge(self, st, loopnode, fr):
+        return (st[0], purge_loop_facts(st[1], loopnode, fr))
+
     def on_branch(self, st, test, fr, taken):
         cs, facts = st
         facts = self.mem.branch(facts, test, fr, taken)
@@ -270,8 +273,19 @@ def run_cache(model: Model, res, cls_name: str = "AaveV3Market", prop: str = "C1
     n_writers = 0
     total_resets = 0
     machinery = {"_liquidate", "_do_liquidate", "update"}
+    # entry points: public methods, and private methods that no other method of the class calls.  A private helper that
+    # is only reached through other methods of the class may hand a stale cache back to its caller; it is covered, with
+    # its callers' resets, by inlining.
+    called_inside = set()
+    for name, f in cls.methods.items():
+        for n in ast.walk(f.node):
+            if isinstance(n, ast.Call) and isinstance(n.func, ast.Attribute) and isinstance(n.func.value, ast.Name) \
+                    and n.func.value.id == "self" and n.func.attr in cls.methods and n.func.attr != name:
+                called_inside.add(n.func.attr)
     for name, f in sorted(cls.methods.items()):
         if name == "__init__":
+            continue
+        if name.startswith("_") and not name.endswith("__") and name in called_inside:
             continue
         dom = CacheDomain(model, cls, caches, deps)
         it = Interp(model, dom)
